@@ -343,6 +343,21 @@ def clip_border_segment(stream, style, width, side, border_box,
             ((x1, y1), True) if abs(x1) > abs(x2) and abs(y1) > abs(y2)
             else ((x2, y2), False))
 
+    def clip_point(x, y, rounded):
+        """Get the point of the clip path for a transition point.
+
+        The center of a rounded corner whose radii are as large as the box
+        lies in the borders of the opposite sides, or beyond them. The clip
+        path of a side must not include the other sides: the point is moved
+        back to their inner edges. Both sides sharing the corner get the same
+        point.
+
+        """
+        if rounded:
+            x = min(x, bbw - br) if x > 0 else max(x, bl - bbw)
+            y = min(y, bbh - bb) if y > 0 else max(y, bt - bbh)
+        return x, y
+
     def corner_half_length(a, b):
         """Return the length of the half of one ellipsis corner.
 
@@ -391,19 +406,23 @@ def clip_border_segment(stream, style, width, side, border_box,
         a2, b2 = -px2 - br / 2, way * py2 - width / 2
         line_length = bbw - px1 + px2
         length = bbw
+        cx1, cy1 = clip_point(px1, py1, rounded1)
+        cx2, cy2 = clip_point(px2, py2, rounded2)
         stream.move_to(bbx + bbw, main_offset)
         stream.line_to(bbx, main_offset)
-        stream.line_to(bbx + px1, main_offset + py1)
-        stream.line_to(bbx + bbw + px2, main_offset + py2)
+        stream.line_to(bbx + cx1, main_offset + cy1)
+        stream.line_to(bbx + bbw + cx2, main_offset + cy2)
     elif side in ('left', 'right'):
         a1, b1 = -way * px1 - width / 2, py1 - bt / 2
         a2, b2 = -way * px2 - width / 2, -py2 - bb / 2
         line_length = bbh - py1 + py2
         length = bbh
+        cx1, cy1 = clip_point(px1, py1, rounded1)
+        cx2, cy2 = clip_point(px2, py2, rounded2)
         stream.move_to(main_offset, bby + bbh)
         stream.line_to(main_offset, bby)
-        stream.line_to(main_offset + px1, bby + py1)
-        stream.line_to(main_offset + px2, bby + bbh + py2)
+        stream.line_to(main_offset + cx1, bby + cy1)
+        stream.line_to(main_offset + cx2, bby + bbh + cy2)
 
     if style in ('dotted', 'dashed'):
         dash = width if style == 'dotted' else 3 * width
@@ -423,7 +442,7 @@ def clip_border_segment(stream, style, width, side, border_box,
             dashes2 = ceil((chl2 - dash / 2) / dash)
             line = floor(line_length / dash)
 
-            def draw_dots(dashes, line, way, x, y, px, py, chl):
+            def draw_dots(dashes, line, way, x, y, px, py, chl, cx, cy):
                 if not dashes:
                     return line + 1, 0
                 for i in range(0, dashes, 2):
@@ -436,13 +455,13 @@ def clip_border_segment(stream, style, width, side, border_box,
                         4 * pi,
                         angle * pi / 2)
                     if side in ('top', 'bottom'):
-                        stream.move_to(x + px, main_offset + py)
+                        stream.move_to(x + cx, main_offset + cy)
                         stream.line_to(
                             x + px - way * px * 1 / tan(angle2), main_offset)
                         stream.line_to(
                             x + px - way * px * 1 / tan(angle1), main_offset)
                     elif side in ('left', 'right'):
-                        stream.move_to(main_offset + px, y + py)
+                        stream.move_to(main_offset + cx, y + cy)
                         stream.line_to(
                             main_offset, y + py + way * py * tan(angle2))
                         stream.line_to(
@@ -459,9 +478,10 @@ def clip_border_segment(stream, style, width, side, border_box,
                 return line, offset
 
             line, offset = draw_dots(
-                dashes1, line, way, bbx, bby, px1, py1, chl1)
+                dashes1, line, way, bbx, bby, px1, py1, chl1, cx1, cy1)
             line = draw_dots(
-                dashes2, line, -way, bbx + bbw, bby + bbh, px2, py2, chl2)[0]
+                dashes2, line, -way, bbx + bbw, bby + bbh, px2, py2, chl2,
+                cx2, cy2)[0]
 
             if line_length > 1e-6:
                 for i in range(0, line, 2):
